@@ -105,7 +105,9 @@ def nestedCase : P String := do
     | some (s, confs) =>
       let gs := C02.grun c (C02.G.init c s0.conf) s.glog
       let g := if C02.project c s.log ≠ s.glog then "diff"
-        else if !(C02.invOK c gs s.conf) then "inv" else "ok"
+        else if !(C02.invOK c gs s.conf) then "inv"
+        else if gs.enteredWhileLive || gs.exitedWhileDead || gs.enterBeforeParent || gs.exitBeforeChild || gs.finBad
+          then "flags" else "ok"
       pure s!"T {joinNats (encItems s.log)} C {joinNats (encSVal (buildStateList [] s0.conf) ++ confs.flatten)} G {g}"
 
 /-- debugging aid: the model's ghost log and the projection of its item log, printed -/
